@@ -590,6 +590,11 @@ def run_C12(ctx):
                         x = rb(rng, nblocks_choice(rng, w, 2 * w + 2) * bs)
                         seq_a.append(f"applyblocks {hx(x)}")
                         seq_b.append(f"applyblocksb {hx(x)} {hx(rb_nz(rng, len(x)))}")
+                if fam == "core" and rng.random() < 0.35:
+                    # the consuming one-shot `try_apply_keystream_partial`, in place against two buffers
+                    x = rb(rng, rng.choice([0, 1, bs - 1, bs, bs + 1, rng.randrange(0, (w + 2) * bs + 1)]))
+                    seq_a.append(f"partial {hx(x)}")
+                    seq_b.append(f"partialb {hx(x)} {hx(rb_nz(rng, len(x)))}")
                 st = "corestate" if fam == "stream" else "ivstate"
                 ca = Case(fam, mode, bs, w, key, iv, ops=seq_a + [st], role="inplace")
                 cb = Case(fam, mode, bs, w, key, iv, ops=seq_b + [st], role="b2b")
